@@ -866,3 +866,41 @@ write_byte_blocks! {
     c07_write_byte_8: 8; c07_write_byte_9: 9; c07_write_byte_a: 10; c07_write_byte_b: 11;
     c07_write_byte_c: 12; c07_write_byte_d: 13; c07_write_byte_e: 14; c07_write_byte_f: 15;
 }
+
+// ------------------------------------------------------------------------------------------
+// C09: the contract of `int_or_big` itself (the C09 harnesses above replace it by a ghost stub)
+// ------------------------------------------------------------------------------------------
+static mut GHOST_F: Option<(i128, i128)> = None;
+fn f2(x: [BigInt; 2]) -> BigInt {
+    unsafe { GHOST_F = Some((x[0].to_i128().unwrap(), x[1].to_i128().unwrap())) };
+    core::mem::forget(x);
+    BigInt::from(7)
+}
+fn f1(x: [BigInt; 1]) -> BigInt {
+    unsafe { GHOST_F = Some((x[0].to_i128().unwrap(), 0)) };
+    core::mem::forget(x);
+    BigInt::from(7)
+}
+/// `int_or_big(Some(v), ..)` is `Int(v)` and does not call the fall-back; `int_or_big(None, xs,
+/// f)` calls `f` with big integers equal to `xs`, in order, and returns its result as a big
+/// integer - for all machine-integer operands (num-bigint's conversions run symbolically; its
+/// arithmetic does not and is not reached here)
+#[kani::proof]
+#[kani::unwind(6)]
+fn c09_int_or_big() {
+    let (x, y): (isize, isize) = kani::any();
+    let i: Option<isize> = kani::any();
+    kani::cover!(i.is_none() && x == isize::MIN);
+    let r = MD::new(crate::num::verif_int_or_big(i, [x, y], f2));
+    match i {
+        Some(v) => assert!(matches!(&*r, Num::Int(z) if *z == v) && unsafe { GHOST_F }.is_none()),
+        None => {
+            assert!(unsafe { GHOST_F } == Some((x as i128, y as i128)));
+            assert!(matches!(&*r, Num::BigInt(b) if b.to_i128() == Some(7)));
+        }
+    }
+    unsafe { GHOST_F = None };
+    let r1 = MD::new(crate::num::verif_int_or_big(None, [x], f1));
+    assert!(unsafe { GHOST_F } == Some((x as i128, 0)));
+    assert!(matches!(&*r1, Num::BigInt(b) if b.to_i128() == Some(7)));
+}
